@@ -1,18 +1,20 @@
-(* XCodegenCall.v -- procedures meet the call specification of XCodegenStmt.v: the program-level induction.
+(* XCodegenCall.v -- procedures and functions meet the call specification of XCodegenStmt.v: the program-level
+   induction.
 
-   Setting: a table pinfo of callable procedures; each is a procedure (not a function) with value formals and
-   var locals only, whose names are pairwise distinct and hide no global variable ("simple"); its lowered code
-   prologue ++ cs body ++ [exit label] ++ epilogue sits at its entry label; its frame numbers are consistent
-   (0 < size <= maxframe, locals <= nslots, nslots + og <= size).  Globals live below the stack; the stack region
-   [stack_lo, MEMW) is unprotected.
+   Setting: a table pinfo of callable procedures and functions; each has value formals and var locals only, whose
+   names are pairwise distinct and hide no global variable ("simple"); its lowered code
+   prologue ++ cs body ++ [exit label] ++ epilogue (a function's epilogue first stores the result to the caller's
+   outgoing word 1) sits at its entry label; its frame numbers are consistent (0 < size <= maxframe,
+   locals <= nslots, nslots + og <= size).  Globals live below the stack; the stack region [stack_lo, MEMW) is
+   unprotected.
 
-   call_ok: for every fuel, every simple procedure frame meets call_spec as a CALLER context -- i.e. a call made
-   from it to any procedure of pinfo (prologue: link word, stack pointer down; body by the statement theorem at the
-   callee's frame; epilogue: stack pointer up, return through the link word) comes back to the link address with
-   the caller's relation restored for the state XSem's invoke yields.  The stack budget is the invariant
+   call_ok: for every fuel, every simple frame meets call_spec as a CALLER context -- i.e. a call made from it to
+   anything in pinfo (prologue: link word, stack pointer down; body by the statement theorem at the callee's frame;
+   epilogue: [result word,] stack pointer up, return through the link word) comes back to the link address with the
+   caller's relation restored for the state XSem's invoke yields.  The stack budget is the invariant
    stack_lo + (maxdepth - depth) * maxframe <= sp, kept because XSem bounds the call depth.
    Hence (stmt_calls_closed) the statement theorem holds unconditionally for bodies with procedure-call
-   statements, including recursion. *)
+   statements and function calls as whole right-hand sides, including recursion. *)
 From Coq Require Import ZArith List String Bool Lia Wf_nat.
 From HexVerif Require Import WMap Isa XAst XSem XCodegenIsa XCodegenInv XCodegenExpr XCodegenStmt.
 Import ListNotations.
@@ -24,11 +26,18 @@ Record playout := { pl_size : Z; pl_nslots : Z; pl_og : Z; pl_exit : label; pl_n
 
 Definition pro (size : Z) : list instr := [LDBM 1; STAI 0; LDAC (- size); ADD; STAM 1].
 Definition epi (exitl : label) (size : Z) : list instr := [LABEL exitl; LDBM 1; LDAC size; ADD; STAM 1; LDBI size; BRB].
+(* a function's epilogue first stores the result (areg) to the caller's outgoing word 1 *)
+Definition epif (exitl : label) (size : Z) : list instr :=
+  [LABEL exitl; LDBM 1; STAI (size + 1); LDAC size; ADD; STAM 1; LDBI size; BRB].
+Definition epi_of (isf : bool) (exitl : label) (size : Z) : list instr := if isf then epif exitl size else epi exitl size.
+(* frame offset of the first formal above the frame: after the link word, and for a function the result word *)
+Definition foff (pr : proc) : Z := if is_func pr then 2 else 1.
+Lemma foff_range pr : 1 <= foff pr <= 2. Proof. unfold foff. destruct (is_func pr); lia. Qed.
 
 (* ---------------------------------------------------------------- frames of simple procedures *)
 Definition simple_proc (gaddr : string -> option Z) (pr : proc) (fn ln : list string) : Prop :=
   formals pr = map FVal fn /\ locals pr = map DVar ln /\ NoDup (fn ++ ln) /\
-  (forall x, In x (fn ++ ln) -> gaddr x = None) /\ is_func pr = false.
+  (forall x, In x (fn ++ ln) -> gaddr x = None).
 
 Lemma index_of_spec : forall l x i j, index_of x l i = Some j -> exists k, nth_error l k = Some x /\ j = i + Z.of_nat k.
 Proof.
@@ -47,10 +56,10 @@ Qed.
 Lemma frame_venv_spec gaddr pr fn ln size x l :
   simple_proc gaddr pr fn ln -> frame_venv gaddr pr size x = Some l ->
   (exists j, nth_error ln j = Some x /\ l = LFrame (size - 1 - Z.of_nat j)) \/
-  (exists i, nth_error fn i = Some x /\ l = LFrame (size + 1 + Z.of_nat i)) \/
+  (exists i, nth_error fn i = Some x /\ l = LFrame (size + foff pr + Z.of_nat i)) \/
   (~ In x (fn ++ ln) /\ exists a, gaddr x = Some a /\ l = LGlobal a).
 Proof.
-  intros (Hf & Hl & Hnd & Hng & Hisf) H. unfold frame_venv in H. rewrite Hl, Hf, Hisf in H.
+  intros (Hf & Hl & Hnd & Hng) H. unfold frame_venv in H. rewrite Hl, Hf in H.
   assert (Ml : map local_decl_name (map DVar ln) = ln) by (rewrite map_map; cbn; apply map_id).
   assert (Mf : map formal_nm (map FVal fn) = fn) by (rewrite map_map; cbn; apply map_id).
   rewrite Ml, Mf in H.
@@ -59,7 +68,7 @@ Proof.
     destruct (index_of_spec _ _ _ _ El) as (k & Hk & ->). left. exists k. split; [exact Hk | f_equal; lia].
   - destruct (index_of x fn 0) as [i|] eqn:Ef.
     + destruct (existsb _ _); [|discriminate]. inversion H; subst l.
-      destruct (index_of_spec _ _ _ _ Ef) as (k & Hk & ->). right. left. exists k. split; [exact Hk | f_equal; lia].
+      destruct (index_of_spec _ _ _ _ Ef) as (k & Hk & ->). right. left. exists k. split; [exact Hk | f_equal; unfold foff; destruct (is_func pr); lia].
     + destruct (gaddr x) as [a|] eqn:Eg; [|discriminate]. inversion H; subst l.
       right. right. split; [|exists a; split; reflexivity].
       intros Hin. apply in_app_or in Hin. destruct Hin as [Hin|Hin];
@@ -128,7 +137,7 @@ Lemma enter_frame ge gaddr pr fn ln vs st fr :
   (forall i x, nth_error fn i = Some x -> exists z, nth_error vs i = Some (Vint z) /\ assoc x (f_vars fr) = Some (Vint z)) /\
   (forall x, ~ In x (fn ++ ln) -> assoc x (f_vars fr) = None).
 Proof.
-  intros (Hf & Hl & Hnd & Hng & Hisf) He. unfold enter in He.
+  intros (Hf & Hl & Hnd & Hng) He. unfold enter in He.
   destruct (Nat.leb (g_maxdepth ge) (f_depth (top st))) eqn:Ed; [discriminate|]. apply Nat.leb_gt in Ed.
   rewrite Hf in He. destruct (bind_formals (map FVal fn) vs) as [u|fv] eqn:Eb; [discriminate|].
   destruct (bind_formals_simple fn vs fv Eb) as (Hlen & Hmap & Hn).
@@ -178,22 +187,22 @@ Section Prog.
   (* a frame of the simple procedure pr at stack pointer sp *)
   Definition frame_ok (pr : proc) (fn ln : list string) (L : playout) (sp : Z) : Prop :=
     simple_proc gaddr pr fn ln /\ numbers_ok pr L /\ stack_lo <= sp /\
-    sp + pl_size L + 1 + Z.of_nat (List.length fn) <= MEMW /\ sp + 2 < MEMW.
+    sp + pl_size L + foff pr + Z.of_nat (List.length fn) <= MEMW /\ sp + 2 < MEMW.
 
   Hypothesis Hprocs : forall p pi, pinfo p = Some pi ->
-    pf_isfunc pi = false /\ 0 <= lab (pf_entry pi) /\
+    0 <= lab (pf_entry pi) /\
     exists pr fn ln L bc n' endp,
-      find_proc p (g_procs ge) = Some pr /\ lay p = Some L /\ simple_proc gaddr pr fn ln /\ numbers_ok pr L /\
+      find_proc p (g_procs ge) = Some pr /\ pf_isfunc pi = is_func pr /\ lay p = Some L /\ simple_proc gaddr pr fn ln /\ numbers_ok pr L /\
       cs pinfo (frame_venv gaddr pr (pl_size L)) pool (pl_size L) (pl_nslots L) (first_temp pr) (pl_og L) (pl_exit L)
          (body pr) (pl_n0 L) = Some (bc, n') /\
-      code_at Cm lab (lab (pf_entry pi)) (pro (pl_size L) ++ bc ++ epi (pl_exit L) (pl_size L)) endp /\ endp < W.
+      code_at Cm lab (lab (pf_entry pi)) (pro (pl_size L) ++ bc ++ epi_of (is_func pr) (pl_exit L) (pl_size L)) endp /\ endp < W.
   Hypothesis Hgaddr : forall x a, gaddr x = Some a ->
     in_mem a = true /\ ~ P a /\ a <> 1 /\ a < stack_lo /\ assoc x (g_vals ge) = None.
   Hypothesis Hginj : forall x y a b, gaddr x = Some a -> gaddr y = Some b -> x <> y -> a <> b.
   Hypothesis Hstack : 1 < stack_lo /\ forall a, stack_lo <= a < MEMW -> ~ P a.
   Hypothesis HP1 : ~ P 1.
   Hypothesis Hpool : forall v a, pool v = Some a -> P a /\ in_mem a = true /\ rd m0 a = v mod W.
-  Hypothesis Hcallt : forall p pi st n, pinfo p = Some pi -> call_target ge p st <> TSys n.
+  Hypothesis Hcallt : forall p pi, pinfo p = Some pi -> assoc p (g_vals ge) = None.
   Hypothesis Hmaxframe : 0 <= maxframe.
 
   Definition Fr_of (sp : Z) (a : Z) : Prop := stack_lo <= a < sp.
@@ -213,7 +222,7 @@ Section Prog.
   Lemma var_addr pr fn ln L sp x l :
     frame_ok pr fn ln L sp -> frame_venv gaddr pr (pl_size L) x = Some l ->
     (exists j, nth_error ln j = Some x /\ addr_of sp l = sp + pl_size L - 1 - Z.of_nat j /\ (j < List.length ln)%nat) \/
-    (exists i, nth_error fn i = Some x /\ addr_of sp l = sp + pl_size L + 1 + Z.of_nat i /\ (i < List.length fn)%nat) \/
+    (exists i, nth_error fn i = Some x /\ addr_of sp l = sp + pl_size L + foff pr + Z.of_nat i /\ (i < List.length fn)%nat) \/
     (~ In x (fn ++ ln) /\ exists a, gaddr x = Some a /\ l = LGlobal a /\ addr_of sp l = a).
   Proof.
     intros (Hs & _) Hv. destruct (frame_venv_spec gaddr pr fn ln _ x l Hs Hv) as [(j & Hj & ->)|[(i & Hi & ->)|(Hn & a & Ha & ->)]].
@@ -234,7 +243,7 @@ Section Prog.
   Lemma stmt_from_calls f : (forall f', (f' < f)%nat -> Call_ok f') -> Stmt_ok f.
   Proof.
     intros Hc pr fn ln L sp Hfr. pose proof Hfr as (Hs & (Hsz & Hft & Hog & Hns) & Hlo & Htop & Htop2).
-    pose proof (first_temp_len pr fn ln Hs) as Hft'.
+    pose proof (first_temp_len pr fn ln Hs) as Hft'. pose proof (foff_range pr) as Hfo.
     destruct Hstack as [Hs1 HsP].
     apply stmt_correct_calls.
     - unfold tlo, fb. lia.
@@ -267,7 +276,7 @@ Section Prog.
       + intros Heq. assert (j = j') by lia. subst j'. rewrite Hj in Hj'. inversion Hj'. contradiction.
       + intros Heq. assert (i = i') by lia. subst i'. rewrite Hi in Hi'. inversion Hi'. contradiction.
       + exact (Hginj x y a a' Ha Ha' Hne).
-    - intros p pi Hp. destruct (Hprocs p pi Hp) as (_ & H0 & pr' & fn' & ln' & L' & bc & n' & endp & _ & _ & _ & _ & _ & Hca & He).
+    - intros p pi Hp. destruct (Hprocs p pi Hp) as (H0 & pr' & fn' & ln' & L' & bc & n' & endp & _ & _ & _ & _ & _ & _ & Hca & He).
       split; [exact H0|]. apply code_at_le in Hca. lia.
     - exact Hcallt.
     - intros f' Hf'. exact (Hc f' Hf' pr fn ln L sp Hfr).
@@ -348,8 +357,54 @@ Section Prog.
     eapply taus_trans; [exact T4|]. eapply taus_trans; [exact T5 | exact T6].
   Qed.
 
+  (* a function's epilogue: the result (areg) goes to the word above the link word first *)
+  Lemma run_epif exitl size m pos nxt a b inp sp' :
+    code_at Cm lab pos (epif exitl size) nxt -> Cm m -> rd m 1 = sp' -> 0 < sp' -> 0 < size -> sp' + size + 1 < MEMW ->
+    ~ P (sp' + size + 1) -> nxt < W ->
+    exists a' b', lab exitl = pos /\
+      taus inp (mk pos a b 0 m) (mk (rd m (sp' + size)) a' b' 0 (wr (wr m (sp' + size + 1) a) 1 (sp' + size))).
+  Proof.
+    intros Hc HC H1 Hsp Hsz Htop HnP Hn. unfold epif in Hc.
+    one_instr Hc p0 Hi0. cbn [instr_at] in Hi0. destruct Hi0 as [<- Hlab].
+    one_instr Hc p1 Hi1. one_instr Hc p1' Hi1'. one_instr Hc p2 Hi2. one_instr Hc p3 Hi3. one_instr Hc p4 Hi4. one_instr Hc p5 Hi5. one_instr Hc p6 Hi6. subst p6.
+    pose proof (instr_at_le _ _ _ _ _ Hi1) as L1. pose proof (instr_at_le _ _ _ _ _ Hi1') as L1'. pose proof (instr_at_le _ _ _ _ _ Hi2) as L2.
+    pose proof (instr_at_le _ _ _ _ _ Hi3) as L3. pose proof (instr_at_le _ _ _ _ _ Hi4) as L4. pose proof (instr_at_le _ _ _ _ _ Hi5) as L5.
+    pose proof (instr_at_le _ _ _ _ _ Hi6) as L6.
+    pose proof (exec_instr Cm lab m pos p1 (LDBM 1) a b inp eq_refl Hi1 HC eq_refl ltac:(lia)) as T1.
+    cbn [sem fst snd] in T1. rewrite H1 in T1.
+    assert (Hw1 : wrap (sp' + (size + 1)) = sp' + size + 1) by (replace (sp' + (size + 1)) with (sp' + size + 1) by lia; apply wrap_small; lia).
+    assert (R1 : readable (STAI (size + 1)) a sp') by (cbn [readable]; rewrite Hw1; apply in_mem_iff; lia).
+    pose proof (exec_instr Cm lab m p1 p1' (STAI (size + 1)) a sp' inp eq_refl Hi1' HC R1 ltac:(lia)) as T1'.
+    cbn [sem fst snd] in T1'. rewrite Hw1 in T1'.
+    set (mr := wr m (sp' + size + 1) a) in *.
+    assert (HCr : Cm mr) by (apply Cm_wr; [exact HC | lia | exact HnP]).
+    pose proof (exec_instr Cm lab mr p1' p2 (LDAC size) a sp' inp eq_refl Hi2 HCr I ltac:(lia)) as T2.
+    cbn [sem fst snd] in T2.
+    pose proof (exec_instr Cm lab mr p2 p3 ADD (size mod W) sp' inp eq_refl Hi3 HCr I ltac:(lia)) as T3.
+    cbn [sem fst snd] in T3.
+    assert (Ha : wrap (size mod W + sp') = sp' + size).
+    { unfold wrap. rewrite Zplus_mod_idemp_l. replace (size + sp') with (sp' + size) by lia.
+      apply Z.mod_small. unfold MEMW, W in *. lia. }
+    rewrite Ha in T3.
+    pose proof (exec_instr Cm lab mr p3 p4 (STAM 1) (sp' + size) sp' inp eq_refl Hi4 HCr eq_refl ltac:(lia)) as T4.
+    cbn [sem fst snd] in T4.
+    set (m1 := wr mr 1 (sp' + size)) in *.
+    assert (HC1 : Cm m1) by (apply Cm_wr; [exact HCr | lia | exact HP1]).
+    assert (Hw : wrap (sp' + size) = sp' + size) by (apply wrap_small; lia).
+    assert (R5 : readable (LDBI size) (sp' + size) sp') by (cbn [readable]; rewrite Hw; apply in_mem_iff; lia).
+    pose proof (exec_instr Cm lab m1 p4 p5 (LDBI size) (sp' + size) sp' inp eq_refl Hi5 HC1 R5 ltac:(lia)) as T5.
+    cbn [sem fst snd] in T5. rewrite Hw in T5.
+    assert (Hr : rd m1 (sp' + size) = rd m (sp' + size)).
+    { unfold m1, mr. rewrite rd_wr_other by lia. apply rd_wr_other; lia. }
+    rewrite Hr in T5.
+    pose proof (exec_brb Cm lab m1 p5 nxt (sp' + size) (rd m (sp' + size)) inp Hi6 HC1) as T6.
+    exists (sp' + size), (rd m (sp' + size)). split; [exact Hlab|].
+    eapply taus_trans; [exact T1|]. eapply taus_trans; [exact T1'|]. eapply taus_trans; [exact T2|]. eapply taus_trans; [exact T3|].
+    eapply taus_trans; [exact T4|]. eapply taus_trans; [exact T5 | exact T6].
+  Qed.
+
   (* ---- frames of caller and callee *)
-  Notation RelF pr L sp := (Rel (Dq_of sp) (frame_venv gaddr pr (pl_size L)) ge P m0 sp).
+  Notation RelF pr L sp := (Rel pinfo (Dq_of sp) (frame_venv gaddr pr (pl_size L)) ge P m0 sp).
   Notation scratchF pr L sp := (scratch (Fr_of sp) (pl_size L) (pl_nslots L) (first_temp pr) (pl_og L) sp).
   Notation var_wordF pr L sp := (var_word (frame_venv gaddr pr (pl_size L)) sp).
   Notation frame_onlyF pr L sp :=
@@ -367,7 +422,7 @@ Section Prog.
   Lemma global_in_frame pr fn ln size x a :
     simple_proc gaddr pr fn ln -> gaddr x = Some a -> frame_venv gaddr pr size x = Some (LGlobal a).
   Proof.
-    intros (Hf & Hl & _ & Hng & _) Hx.
+    intros (Hf & Hl & _ & Hng) Hx.
     assert (Hn : ~ In x (fn ++ ln)) by (intros Hin; rewrite (Hng x Hin) in Hx; discriminate).
     unfold frame_venv. rewrite Hl, Hf.
     assert (Ml : map local_decl_name (map DVar ln) = ln) by (rewrite map_map; cbn; apply map_id).
@@ -388,7 +443,7 @@ Section Prog.
   Lemma callee_var_word pr' fn' ln' L' sp' a :
     frame_ok pr' fn' ln' L' sp' -> var_wordF pr' L' sp' a ->
     stack_lo <= a < sp' + pl_size L' \/
-    sp' + pl_size L' + 1 <= a < sp' + pl_size L' + 1 + Z.of_nat (List.length fn') \/
+    sp' + pl_size L' + foff pr' <= a < sp' + pl_size L' + foff pr' + Z.of_nat (List.length fn') \/
     exists x, gaddr x = Some a.
   Proof.
     intros Hfr (x & l & Hx & ->). pose proof Hfr as (Hs & (Hsz & Hft & Hog & Hns) & Hlo & _).
@@ -401,7 +456,7 @@ Section Prog.
 
   Lemma callee_frame pr fn ln L sp pr' fn' ln' L' st m vs fr link :
     frame_ok pr fn ln L sp -> simple_proc gaddr pr' fn' ln' -> numbers_ok pr' L' ->
-    RelF pr L sp st m -> args_stored sp vs 1 m -> Z.of_nat (List.length vs) + 1 <= pl_og L ->
+    RelF pr L sp st m -> args_stored sp vs (foff pr') m -> Z.of_nat (List.length vs) + foff pr' <= pl_og L ->
     enter ge pr' vs st = inr fr ->
     frame_ok pr' fn' ln' L' (sp - pl_size L') /\
     RelF pr' L' (sp - pl_size L') (set_stk (set_budget st (budget st - 1)) (fr :: stk st))
@@ -410,6 +465,7 @@ Section Prog.
     intros Hfr Hs' Hnum' HR Hargs Hlen Hent.
     pose proof Hfr as (Hs & (Hsz & Hft & Hog & Hns) & Hlo & Htop & Htop2).
     pose proof Hnum' as (Hsz' & Hft1 & Hog' & Hns').
+    pose proof (foff_range pr) as Hfo. pose proof (foff_range pr') as Hfo'.
     destruct Hstack as [Hs1 HsP].
     destruct HR as (HC & H1 & (HVg & HVf) & Hne & HD).
     destruct (enter_frame ge gaddr pr' fn' ln' vs st fr Hs' Hent) as (Hd & Hfd & Hfv & Hlv & Hloc & Hfor & Hoth).
@@ -439,9 +495,9 @@ Section Prog.
           destruct (Hargs i (Vint z) Hz) as (z' & Hz' & Hin & Hrd). inversion Hz'; subst z'.
           exists (Vint z). split; [exact Hass|]. right. exists z. split; [reflexivity|]. split; [exact Hin|].
           assert (Hil : (i < List.length vs)%nat) by (apply nth_error_Some; congruence).
-          replace (sp - pl_size L' + (pl_size L' + 1 + Z.of_nat i)) with (sp + 1 + Z.of_nat i) by lia.
+          replace (sp - pl_size L' + (pl_size L' + foff pr' + Z.of_nat i)) with (sp + foff pr' + Z.of_nat i) by lia.
           rewrite Hm2; [exact Hrd | lia | lia | lia].
-    - cbn [set_stk stk]. discriminate.
+    - split; [cbn [set_stk stk]; discriminate|]. intros q qi _. cbn [top set_stk stk]. rewrite Hfv. reflexivity.
     - cbn [top set_stk stk]. rewrite Hfd. unfold Dq_of in *.
       replace (g_maxdepth ge - f_depth (top st))%nat with (S (g_maxdepth ge - S (f_depth (top st)))) in HD by lia.
       rewrite Nat2Z.inj_succ in HD. nia.
@@ -450,19 +506,24 @@ Section Prog.
   Lemma stk_pop s : stk (pop s) = tl (stk s).
   Proof. unfold pop. cbn [stk set_stk]. destruct (stk s); reflexivity. Qed.
 
-  (* back in the caller: what the callee's frame left is what the caller's relation needs *)
-  Lemma caller_back pr fn ln L sp pr' fn' ln' L' st m (vs : list value) fr link s2 mb outs :
+  (* back in the caller: what the callee's frame left is what the caller's relation needs.  mf is the memory after
+     the epilogue: mb with the stack pointer restored and, after a function, the result word sp+1 written *)
+  Lemma caller_back pr fn ln L sp pr' fn' ln' L' st m (vs : list value) fr link s2 mb mf outs :
     frame_ok pr fn ln L sp -> frame_ok pr' fn' ln' L' (sp - pl_size L') ->
-    RelF pr L sp st m -> List.length vs = List.length fn' -> Z.of_nat (List.length vs) + 1 <= pl_og L ->
+    RelF pr L sp st m -> List.length vs = List.length fn' -> Z.of_nat (List.length vs) + foff pr' <= pl_og L ->
     RelF pr' L' (sp - pl_size L') s2 mb ->
     post (set_stk (set_budget st (budget st - 1)) (fr :: stk st)) s2 outs ->
     frame_onlyF pr' L' (sp - pl_size L') (wr (wr m sp link) 1 (sp - pl_size L')) mb ->
-    rd mb sp = link /\ RelF pr L sp (pop s2) (wr mb 1 sp) /\ post st (pop s2) outs /\ frame_onlyF pr L sp m (wr mb 1 sp).
+    Cm mf -> rd mf 1 = sp ->
+    (forall a, 0 <= a -> a <> 1 -> (is_func pr' = true -> a <> sp + 1) -> rd mf a = rd mb a) ->
+    rd mb sp = link /\ RelF pr L sp (pop s2) mf /\ post st (pop s2) outs /\ frame_onlyF pr L sp m mf.
   Proof.
-    intros Hfr Hfr' HR Hlv Hlen HR' Hpost Hfo.
+    intros Hfr Hfr' HR Hlv Hlen HR' Hpost Hfo HCf Hf1 Hm'.
     pose proof Hfr as (Hs & (Hsz & Hft & Hog & Hns) & Hlo & Htop & Htop2).
     pose proof Hfr' as (Hs' & (Hsz' & Hft1 & Hog' & Hns') & Hlo' & Htop' & Htop2').
     pose proof (first_temp_len pr fn ln Hs) as Hftl.
+    pose proof (foff_range pr) as Hfr1. pose proof (foff_range pr') as Hfr2.
+    assert (Hf2 : is_func pr' = true -> foff pr' = 2) by (intros H; unfold foff; rewrite H; reflexivity).
     destruct Hstack as [Hs1 HsP].
     destruct HR as (HC & H1 & (HVg & HVf) & Hne & HD).
     destruct HR' as (HC' & H1' & (HVg' & HVf') & Hne' & HD').
@@ -470,13 +531,12 @@ Section Prog.
     assert (Hstk : stk (pop s2) = stk st) by (rewrite stk_pop; exact P5).
     assert (Htopeq : top (pop s2) = top st) by (unfold top; rewrite Hstk; reflexivity).
     (* what the callee may have changed *)
-    assert (Hout : forall a, 0 <= a -> ~ (stack_lo <= a < sp) -> ~ (sp + 1 <= a < sp + 1 + Z.of_nat (List.length vs)) ->
+    assert (Hout : forall a, 0 <= a -> ~ (stack_lo <= a < sp) -> ~ (sp + foff pr' <= a < sp + foff pr' + Z.of_nat (List.length vs)) ->
                    (forall x, gaddr x <> Some a) -> a <> 1 -> a <> sp -> rd mb a = rd m a).
     { intros a Ha Hn1 Hn2 Hn3 Hn4 Hn5. rewrite (Hfo a Ha).
       - rewrite rd_wr_other; [|lia | exact Ha | congruence]. apply rd_wr_other; [lia | exact Ha | congruence].
       - intros Hsc. apply (callee_scratch pr' fn' ln' L' _ a Hfr') in Hsc. lia.
       - intros Hvw. destruct (callee_var_word pr' fn' ln' L' _ a Hfr' Hvw) as [Hq|[Hq|(x & Hx)]]; [lia | rewrite <- Hlv in Hq; lia | exact (Hn3 x Hx)]. }
-    assert (Hm' : forall a, 0 <= a -> a <> 1 -> rd (wr mb 1 sp) a = rd mb a) by (intros a Ha Ha1; apply rd_wr_other; [lia | exact Ha | congruence]).
     split; [|split; [|split]].
     - (* the link word *)
       rewrite (Hfo sp ltac:(lia)).
@@ -485,8 +545,8 @@ Section Prog.
       + intros Hvw. destruct (callee_var_word pr' fn' ln' L' _ sp Hfr' Hvw) as [Hq|[Hq|(x & Hx)]]; [lia | lia |].
         destruct (Hgaddr x sp Hx) as (_ & _ & _ & G4 & _). lia.
     - split; [|split; [|split; [|split]]].
-      + apply Cm_wr; [exact HC' | lia | exact HP1].
-      + apply rd_wr_same.
+      + exact HCf.
+      + exact Hf1.
       + split.
         * intros x a Hx. rewrite Htopeq. destruct (HVg x a Hx) as (A1 & A2 & A3 & _).
           split; [exact A1|]. split; [exact A2|]. split; [exact A3|].
@@ -495,20 +555,22 @@ Section Prog.
             inversion Hq; subst a0. exact Ha0. }
           destruct (Hgaddr x a Hga) as (G1 & G2 & G3 & G4 & G5).
           destruct (HVg' x a (global_in_frame pr' fn' ln' (pl_size L') x a Hs' Hga)) as (_ & _ & _ & v & Hv & Hval).
-          exists v. split; [exact Hv|]. rewrite Hm'; [exact Hval | apply in_mem_iff in G1; lia | exact G3].
+          exists v. split; [exact Hv|]. rewrite Hm'; [exact Hval | apply in_mem_iff in G1; lia | exact G3 | lia].
         * intros x k Hx. rewrite Htopeq. destruct (HVf x k Hx) as (v & Hv & Hval). exists v. split; [exact Hv|].
           destruct (var_addr pr fn ln L sp x (LFrame k) Hfr Hx) as [(j & Hj & Hq & Hjl)|[(i & Hi & Hq & Hil)|(Hn & a & Ha & Hq & _)]];
             try discriminate Hq; cbn [addr_of] in Hq; rewrite Hq in *.
-          -- rewrite Hm' by lia. rewrite Hout; [exact Hval | lia | lia | lia | | lia | lia].
+          -- rewrite Hm'; [|lia | lia | intros Hff; specialize (Hf2 Hff); lia]. rewrite Hout; [exact Hval | lia | lia | lia | | lia | lia].
              intros y Hy. destruct (Hgaddr y _ Hy) as (_ & _ & _ & G4 & _). lia.
-          -- rewrite Hm' by lia. rewrite Hout; [exact Hval | lia | lia | lia | | lia | lia].
+          -- rewrite Hm'; [|lia | lia | intros Hff; specialize (Hf2 Hff); lia]. rewrite Hout; [exact Hval | lia | lia | lia | | lia | lia].
              intros y Hy. destruct (Hgaddr y _ Hy) as (_ & _ & _ & G4 & _). lia.
-      + rewrite Hstk. exact Hne.
+      + unfold novals. rewrite Hstk, Htopeq. exact Hne.
       + rewrite Htopeq. exact HD.
     - unfold post. rewrite Htopeq, Hstk. cbn [pop out_rev input ncons garrs set_stk].
       split; [exact P1|]. split; [exact P2|]. split; [exact P3|]. split; [exact P4|]. split; reflexivity.
-    - intros a Ha Hns0 Hnv. destruct (Z.eq_dec a 1) as [->|Hne1]; [rewrite rd_wr_same; symmetry; exact H1|].
-      rewrite Hm' by assumption. apply Hout; try assumption.
+    - intros a Ha Hns0 Hnv. destruct (Z.eq_dec a 1) as [->|Hne1]; [rewrite Hf1; symmetry; exact H1|].
+      rewrite Hm'; [|exact Ha | exact Hne1|].
+      2:{ intros Hff Heq. specialize (Hf2 Hff). apply Hns0. right. left. unfold O. lia. }
+      apply Hout; try assumption.
       + intros Hq. apply Hns0. right. right. exact Hq.
       + intros Hq. apply Hns0. right. left. unfold O. lia.
       + intros x Hx. apply Hnv. exists x, (LGlobal a). split; [exact (global_in_frame pr fn ln (pl_size L) x a Hs Hx) | reflexivity].
@@ -518,21 +580,25 @@ Section Prog.
   (* ---- a procedure of the table, run from its entry label, meets the call specification of any caller frame *)
   Lemma call_from_stmt f : Stmt_ok f -> Call_ok f.
   Proof.
-    intros Hst pr fn ln L sp Hfr p pi vs st m link b inp Hp Hisf HR Hargs Hlen Hlink.
-    destruct (Hprocs p pi Hp) as (_ & He0 & pr' & fn' & ln' & L' & bc & n' & endp & Hfind & Hlay & Hs' & Hnum' & Hcs & Hca & Hend).
-    unfold invoke. rewrite Hfind. pose proof Hs' as (_ & _ & _ & _ & Hisf'). rewrite Hisf'. cbn [Bool.eqb negb].
+    intros Hst pr fn ln L sp Hfr p pi vs st m link b inp Hp HR Hargs Hlen Hlink.
+    destruct (Hprocs p pi Hp) as (He0 & pr' & fn' & ln' & L' & bc & n' & endp & Hfind & Hpf & Hlay & Hs' & Hnum' & Hcs & Hca & Hend).
+    assert (Hko : koff pi = foff pr') by (unfold koff, foff; rewrite Hpf; reflexivity).
+    rewrite Hko in Hargs, Hlen.
+    unfold invoke. rewrite Hfind, Hpf, Bool.eqb_reflx. cbn [negb].
     destruct (enter ge pr' vs st) as [u|fr] eqn:Hent; [exact I|].
     unfold tick. destruct (budget st <=? 0); [exact I|]. cbn [stk set_budget].
     destruct (callee_frame pr fn ln L sp pr' fn' ln' L' st m vs fr link Hfr Hs' Hnum' HR Hargs Hlen Hent) as [Hfr' HR'].
     destruct (enter_frame ge gaddr pr' fn' ln' vs st fr Hs' Hent) as (_ & _ & _ & Hlv & _).
     pose proof Hfr as (Hs & (Hsz & Hft & Hog & Hns) & Hlo & Htop & Htop2).
     pose proof Hfr' as (_ & (Hsz' & Hft1 & Hog' & Hns') & Hlo' & Htop' & Htop2').
+    pose proof (foff_range pr) as Hfo1. pose proof (foff_range pr') as Hfo2.
     destruct Hstack as [Hs1 HsP].
     (* the code *)
     apply code_at_app in Hca. destruct Hca as (p1 & Hpro & Hca). apply code_at_app in Hca. destruct Hca as (p2 & Hbody & Hepi).
     pose proof (code_at_le _ _ _ _ _ Hpro) as L1. pose proof (code_at_le _ _ _ _ _ Hbody) as L2. pose proof (code_at_le _ _ _ _ _ Hepi) as L3.
     assert (Hlab : lab (pl_exit L') = p2).
-    { pose proof Hepi as Hq. unfold epi in Hq. cbn [code_at] in Hq. destruct Hq as (q & Hq & _). cbn [instr_at] in Hq. exact (proj2 Hq). }
+    { pose proof Hepi as Hq. unfold epi_of, epif, epi in Hq. destruct (is_func pr'); cbn [code_at] in Hq;
+        destruct Hq as (q & Hq & _); cbn [instr_at] in Hq; exact (proj2 Hq). }
     (* prologue *)
     pose proof HR as (HC & H1 & _).
     pose proof (run_pro (pl_size L') m (lab (pf_entry pi)) p1 link b inp sp Hpro HC H1 ltac:(lia) ltac:(apply HsP; lia) ltac:(lia) ltac:(lia) Hlink) as Tpro.
@@ -541,23 +607,52 @@ Section Prog.
     set (st1 := set_stk (set_budget st (budget st - 1)) (fr :: stk st)) in *.
     (* body *)
     pose proof (Hst pr' fn' ln' L' sp' Hfr' (body pr') (pl_n0 L') bc n' st1 Hcs m2 p1 p2 sp' sp inp HR' Hbody ltac:(lia) ltac:(lia) ltac:(lia)) as Hres.
-    destruct (exec f ge (body pr') st1) as [[|v] s2|c s2|u]; cbn [bind rcase result_ok] in *; [| | |exact I].
-    - destruct Hres as (outs & a1 & b1 & mb & Rb & HRb & Pb & Fb).
-      destruct (caller_back pr fn ln L sp pr' fn' ln' L' st m vs fr link s2 mb outs Hfr Hfr' HR Hlv Hlen HRb Pb Fb) as (Hlk & HRc & Pc & Fc).
-      destruct HRb as (HCb & H1b & _).
-      destruct (run_epi (pl_exit L') (pl_size L') mb p2 endp a1 b1 inp sp' Hepi HCb H1b ltac:(lia) ltac:(lia) ltac:(unfold sp'; lia) Hend) as (a2 & b2 & _ & Tepi).
-      replace (sp' + pl_size L') with sp in Tepi by (unfold sp'; lia). rewrite Hlk in Tepi.
-      exists outs, a2, b2, (wr mb 1 sp). split; [|exact (conj HRc (conj Pc Fc))].
-      eapply taus_runs; [exact Tpro|]. eapply runs_taus; [exact Rb | exact Tepi].
-    - destruct Hres as (outs & z & b1 & mb & _ & _ & Rb & HRb & Pb & Fb). rewrite Hlab in Rb.
-      destruct (caller_back pr fn ln L sp pr' fn' ln' L' st m vs fr link s2 mb outs Hfr Hfr' HR Hlv Hlen HRb Pb Fb) as (Hlk & HRc & Pc & Fc).
-      destruct HRb as (HCb & H1b & _).
-      destruct (run_epi (pl_exit L') (pl_size L') mb p2 endp (z mod W) b1 inp sp' Hepi HCb H1b ltac:(lia) ltac:(lia) ltac:(unfold sp'; lia) Hend) as (a2 & b2 & _ & Tepi).
-      replace (sp' + pl_size L') with sp in Tepi by (unfold sp'; lia). rewrite Hlk in Tepi.
-      exists outs, a2, b2, (wr mb 1 sp). split; [|exact (conj HRc (conj Pc Fc))].
-      eapply taus_runs; [exact Tpro|]. eapply runs_taus; [exact Rb | exact Tepi].
-    - destruct Hres as (outs & Ex & (Q1 & Q2 & Q3 & Q4)). exists outs. split; [eapply taus_exits; [exact Tpro | exact Ex]|].
-      exact (conj Q1 (conj Q2 (conj Q3 Q4))).
+    destruct (is_func pr') eqn:Eif; cbn [epi_of] in Hepi.
+    - (* a function: the body must return a value; the epilogue stores it to the caller's word sp + 1 *)
+      assert (Hf2 : foff pr' = 2) by (unfold foff; rewrite Eif; reflexivity).
+      destruct (exec f ge (body pr') st1) as [[|v] s2|c s2|u]; cbn [bind rcase result_ok ret_ok] in *; [exact I | | | exact I].
+      + destruct Hres as (outs & z & b1 & mb & -> & Hz & Rb & HRb & Pb & Fb). rewrite Hlab in Rb. cbn [ret_ok].
+        pose proof HRb as (HCb & H1b & _).
+        destruct (run_epif (pl_exit L') (pl_size L') mb p2 endp (z mod W) b1 inp sp' Hepi HCb H1b ltac:(lia) ltac:(lia)
+                    ltac:(unfold sp'; lia) ltac:(apply HsP; unfold sp'; lia) Hend) as (a2 & b2 & _ & Tepi).
+        replace (sp' + pl_size L' + 1) with (sp + 1) in Tepi by (unfold sp'; lia).
+        replace (sp' + pl_size L') with sp in Tepi by (unfold sp'; lia).
+        set (mf := wr (wr mb (sp + 1) (z mod W)) 1 sp) in *.
+        assert (HCf : Cm mf) by (apply Cm_wr; [apply Cm_wr; [exact HCb | lia | apply HsP; lia] | lia | exact HP1]).
+        destruct (caller_back pr fn ln L sp pr' fn' ln' L' st m vs fr link s2 mb mf outs Hfr Hfr' HR Hlv Hlen HRb Pb Fb HCf)
+          as (Hlk & HRc & Pc & Fc).
+        { apply rd_wr_same. }
+        { intros a Ha Ha1 Ha2. unfold mf. rewrite rd_wr_other; [|lia | exact Ha | congruence].
+          apply rd_wr_other; [lia | exact Ha|]. intros Heq. exact (Ha2 Eif (eq_sym Heq)). }
+        rewrite Hlk in Tepi.
+        exists outs, a2, b2, mf. split; [|split; [exact HRc|split; [exact Pc|split; [exact Fc|]]]].
+        * eapply taus_runs; [exact Tpro|]. eapply runs_taus; [exact Rb | exact Tepi].
+        * intros _. exists z. split; [reflexivity|]. split; [exact Hz|].
+          unfold mf. rewrite rd_wr_other; [apply rd_wr_same | lia | lia | lia].
+      + destruct Hres as (outs & Ex & (Q1 & Q2 & Q3 & Q4)). exists outs. split; [eapply taus_exits; [exact Tpro | exact Ex]|].
+        exact (conj Q1 (conj Q2 (conj Q3 Q4))).
+    - (* a procedure *)
+      assert (Hmf : forall mb, Cm mb -> Cm (wr mb 1 sp) /\ rd (wr mb 1 sp) 1 = sp /\
+                    (forall a, 0 <= a -> a <> 1 -> (is_func pr' = true -> a <> sp + 1) -> rd (wr mb 1 sp) a = rd mb a)).
+      { intros mb HCb. split; [apply Cm_wr; [exact HCb | lia | exact HP1]|]. split; [apply rd_wr_same|].
+        intros a Ha Ha1 _. apply rd_wr_other; [lia | exact Ha | congruence]. }
+      destruct (exec f ge (body pr') st1) as [[|v] s2|c s2|u]; cbn [bind rcase result_ok ret_ok] in *; [| | |exact I].
+      + destruct Hres as (outs & a1 & b1 & mb & Rb & HRb & Pb & Fb).
+        pose proof HRb as (HCb & H1b & _). destruct (Hmf mb HCb) as (M1 & M2 & M3).
+        destruct (caller_back pr fn ln L sp pr' fn' ln' L' st m vs fr link s2 mb (wr mb 1 sp) outs Hfr Hfr' HR Hlv Hlen HRb Pb Fb M1 M2 M3) as (Hlk & HRc & Pc & Fc).
+        destruct (run_epi (pl_exit L') (pl_size L') mb p2 endp a1 b1 inp sp' Hepi HCb H1b ltac:(lia) ltac:(lia) ltac:(unfold sp'; lia) Hend) as (a2 & b2 & _ & Tepi).
+        replace (sp' + pl_size L') with sp in Tepi by (unfold sp'; lia). rewrite Hlk in Tepi.
+        exists outs, a2, b2, (wr mb 1 sp). split; [|split; [exact HRc|split; [exact Pc|split; [exact Fc|intros H; discriminate H]]]].
+        eapply taus_runs; [exact Tpro|]. eapply runs_taus; [exact Rb | exact Tepi].
+      + destruct Hres as (outs & z & b1 & mb & _ & _ & Rb & HRb & Pb & Fb). rewrite Hlab in Rb.
+        pose proof HRb as (HCb & H1b & _). destruct (Hmf mb HCb) as (M1 & M2 & M3).
+        destruct (caller_back pr fn ln L sp pr' fn' ln' L' st m vs fr link s2 mb (wr mb 1 sp) outs Hfr Hfr' HR Hlv Hlen HRb Pb Fb M1 M2 M3) as (Hlk & HRc & Pc & Fc).
+        destruct (run_epi (pl_exit L') (pl_size L') mb p2 endp (z mod W) b1 inp sp' Hepi HCb H1b ltac:(lia) ltac:(lia) ltac:(unfold sp'; lia) Hend) as (a2 & b2 & _ & Tepi).
+        replace (sp' + pl_size L') with sp in Tepi by (unfold sp'; lia). rewrite Hlk in Tepi.
+        exists outs, a2, b2, (wr mb 1 sp). split; [|split; [exact HRc|split; [exact Pc|split; [exact Fc|intros H; discriminate H]]]].
+        eapply taus_runs; [exact Tpro|]. eapply runs_taus; [exact Rb | exact Tepi].
+      + destruct Hres as (outs & Ex & (Q1 & Q2 & Q3 & Q4)). exists outs. split; [eapply taus_exits; [exact Tpro | exact Ex]|].
+        exact (conj Q1 (conj Q2 (conj Q3 Q4))).
   Qed.
 
   Theorem call_ok : forall f, Call_ok f.
@@ -575,15 +670,15 @@ Section Prog.
      frame, or the word of a variable in scope *)
   Corollary call_discipline : forall f pr fn ln L sp, frame_ok pr fn ln L sp ->
     forall p pi vs st v st' m link b inp, pinfo p = Some pi ->
-      RelF pr L sp st m -> args_stored sp vs 1 m -> Z.of_nat (List.length vs) + 1 <= pl_og L -> 0 <= link < W ->
-      invoke (exec f ge) ge false p vs st = Ret v st' ->
+      RelF pr L sp st m -> args_stored sp vs (koff pi) m -> Z.of_nat (List.length vs) + koff pi <= pl_og L -> 0 <= link < W ->
+      invoke (exec f ge) ge (pf_isfunc pi) p vs st = Ret v st' ->
       exists evs a' b' m', runs inp (mk (lab (pf_entry pi)) link b 0 m) evs inp (mk link a' b' 0 m') /\
         rd m' 1 = rd m 1 /\ (forall x, 0 <= x -> P x -> rd m' x = rd m x) /\
         (forall x, 0 <= x -> ~ scratchF pr L sp x -> ~ var_wordF pr L sp x -> rd m' x = rd m x).
   Proof.
     intros f pr fn ln L sp Hfr p pi vs st v st' m link b inp Hp HR Hargs Hlen Hlink Hinv.
-    pose proof (call_ok f pr fn ln L sp Hfr p pi vs st m link b inp Hp (proj1 (Hprocs p pi Hp)) HR Hargs Hlen Hlink) as H.
-    rewrite Hinv in H. destruct H as (o & a' & b' & m' & R & HR' & _ & F).
+    pose proof (call_ok f pr fn ln L sp Hfr p pi vs st m link b inp Hp HR Hargs Hlen Hlink) as H.
+    rewrite Hinv in H. destruct H as (o & a' & b' & m' & R & HR' & _ & F & _).
     exists (map wr_ev o), a', b', m'. split; [exact R|].
     destruct HR as (C0 & S0 & _). destruct HR' as (C1 & S1 & _).
     split; [congruence|]. split.
@@ -595,12 +690,35 @@ End Prog.
 (* the code of the hypothesis Hprocs is the lowered procedure of the model cproc_lowered (which tools/c01.py, after
    the executable peephole pass, compares with xcmp -S): exit label 0, body labels from 1, nslots = size *)
 Lemma cproc_lowered_simple pinfo gaddr pool p size og code :
-  is_func p = false -> 0 < size -> cproc_lowered pinfo gaddr pool p size og = Some code ->
+  0 < size -> cproc_lowered pinfo gaddr pool p size og = Some code ->
   exists bc n', cs pinfo (frame_venv gaddr p size) pool size size (first_temp p) og 0 (body p) 1 = Some (bc, n') /\
-                code = pro size ++ bc ++ epi 0 size.
+                code = pro size ++ bc ++ epi_of (is_func p) 0 size.
 Proof.
-  intros Hf Hs H. unfold cproc_lowered in H.
+  intros Hs H. unfold cproc_lowered in H.
   destruct (cs pinfo (frame_venv gaddr p size) pool size size (first_temp p) og 0 (body p) 1) as [[bc n']|]; [|discriminate].
   cbn [obind] in H. inversion H; subst code. exists bc, n'. split; [reflexivity|].
-  unfold prologue, epilogue, pro, epi. rewrite Hf. apply Z.ltb_lt in Hs. rewrite Hs. reflexivity.
+  unfold prologue, epilogue, pro, epi_of, epi, epif. apply Z.ltb_lt in Hs. rewrite Hs. destruct (is_func p); reflexivity.
 Qed.
+
+(* the hypotheses of Section Prog, as one proposition *)
+Definition prog_hyps (ge : genv) (gaddr : string -> option Z) (pool : Z -> option Z) (P : Z -> Prop) (m0 : WMap.t)
+    (lab : label -> Z) (pinfo : string -> option pframe) (lay : string -> option playout) (stack_lo maxframe : Z) : Prop :=
+  (forall p pi, pinfo p = Some pi ->
+     0 <= lab (pf_entry pi) /\
+     exists pr fn ln L bc n' endp,
+       find_proc p (g_procs ge) = Some pr /\ pf_isfunc pi = is_func pr /\ lay p = Some L /\ simple_proc gaddr pr fn ln /\ numbers_ok maxframe pr L /\
+       cs pinfo (frame_venv gaddr pr (pl_size L)) pool (pl_size L) (pl_nslots L) (first_temp pr) (pl_og L) (pl_exit L)
+          (body pr) (pl_n0 L) = Some (bc, n') /\
+       code_at (C P m0) lab (lab (pf_entry pi)) (pro (pl_size L) ++ bc ++ epi_of (is_func pr) (pl_exit L) (pl_size L)) endp /\ endp < W) /\
+  (forall x a, gaddr x = Some a -> in_mem a = true /\ ~ P a /\ a <> 1 /\ a < stack_lo /\ assoc x (g_vals ge) = None) /\
+  (forall x y a b, gaddr x = Some a -> gaddr y = Some b -> x <> y -> a <> b) /\
+  (1 < stack_lo /\ (forall a, stack_lo <= a < MEMW -> ~ P a)) /\
+  ~ P 1 /\
+  (forall v a, pool v = Some a -> P a /\ in_mem a = true /\ rd m0 a = v mod W) /\
+  (forall p pi, pinfo p = Some pi -> assoc p (g_vals ge) = None) /\
+  0 <= maxframe.
+
+Lemma stmt_calls_of_hyps ge gaddr pool P m0 lab pinfo lay stack_lo maxframe :
+  prog_hyps ge gaddr pool P m0 lab pinfo lay stack_lo maxframe ->
+  forall f, Stmt_ok ge gaddr pool P m0 lab pinfo stack_lo maxframe f.
+Proof. intros (H1 & H2 & H3 & H4 & H5 & H6 & H7 & H8). exact (stmt_calls_closed ge gaddr pool P m0 lab pinfo lay stack_lo maxframe H1 H2 H3 H4 H5 H6 H7 H8). Qed.
